@@ -291,6 +291,8 @@ def check_C05(tier):
     # a missing joined file / join column is an error (any LIMIT, any input); a DEFAULT of the joined table is for its rows, not for the NULL row of an OUTER JOIN
     engine_run(c, "join-errors", "BadJoinMenu", lines="LinesJ", maxlines=1, maxfiles=1, tdefs=("plain",), invs=["TypeOK", "BatchRefinesSem"], props=())
     engine_run(c, "join-default", "JoinMenu", lines="LinesJ", maxlines=2, maxfiles=1, tdefs=("udef",))
+    # a table joined with itself: plain names are the queried row, table-qualified names the joined row (WHERE / projections / aggregates / group keys on t.v alone)
+    engine_run(c, "self-join", "SelfJoinMenu", lines="LinesJ", maxlines=3 if t else 2, maxfiles=1, modes=("batch", "incr"), tdefs=("selfj",))
     # the pairs a LIMIT keeps are the first of the ordered pair list, also when WHERE / DISTINCT reject earlier partners of a line
     engine_run(c, "join-limit", "LimitJoinMenu", lines="LinesJ", maxlines=3 if t else 2, maxfiles=1, tdefs=("plain",))
     engine_sim(c, "join", "JoinMenu", lines="LinesJ", maxlines=8, num=1500 if t else 120, modes=("batch",))
